@@ -24,6 +24,13 @@ class NodeFailure(BaseException):
         self.node, self.where = node_term, where
 
 
+def sym_store_set(arr, pred):
+    """arr + { t | pred(t) } as a fresh array"""
+    n = C.fresh("set", sym.SetSort(Id))
+    C.assume(z3.ForAll([x], n[x] == z3.Or(arr[x], pred(x))))
+    return n
+
+
 class Sched:
     """Ghost + concrete state of one execution of the scheduler."""
 
@@ -52,6 +59,7 @@ class Sched:
         self.pend = None
         self.cPend = None
         self.born = sym.K_false(Fut)
+        self.checked = sym.K_false(Fut)  # ghost: futures whose result() was called (failure not swallowed)
         self.async_wait_blocked = False  # python flag of the current path: the async wait of a pair blocked
 
     # ---- derived predicates ---------------------------------------------------------------------------------
@@ -104,8 +112,9 @@ class Sched:
             ("I5.inflight_no_pred", z3.ForAll([x, u], z3.Implies(z3.And(S.infl(x), G[u]), z3.Not(E(u, x)))), {"C02", "C09"}),
             ("I6.limit", S.n_inflight() <= S.maxc, {"C04"}),
             ("I7.pending", z3.ForAll([x], S.pend[x] == z3.And(G[x], z3.Not(st[x]))), {"C09"}),
-            ("I9.results_domain", z3.ForAll([x], z3.Implies(z3.Not(S.infl(x)), rd[x] == z3.Or(S.dom0[x], fin[x], sk[x]))), {"C03", "C11", "C14", "C10"}),
-            ("I10a.skipped_is_None", z3.ForAll([x], z3.Implies(sk[x], rv[x] == none)), {"C10"}),
+            ("I9a.results_of_finished_present", z3.ForAll([x], z3.Implies(z3.And(z3.Not(S.infl(x)), z3.Or(S.dom0[x], fin[x])), rd[x])), {"C02", "C01"}),
+            ("I9b.no_other_results", z3.ForAll([x], z3.Implies(z3.And(z3.Not(S.infl(x)), rd[x]), z3.Or(S.dom0[x], fin[x], sk[x]))), {"C03", "C11", "C14"}),
+            ("I10a.skipped_reads_as_None", z3.ForAll([x], z3.Implies(z3.And(sk[x], rd[x]), rv[x] == none)), {"C10"}),
             ("I10b.given_values_kept", z3.ForAll([x], z3.Implies(S.dom0[x], rv[x] == S.val0[x])), {"C01", "C15", "C11"}),
         ]
         for k in S.KINDS:
@@ -245,7 +254,7 @@ class SchedHooks:
         h = node_of(fut.t)
         if C.choose("future holds an exception"):
             raise NodeFailure(h, "future")
-        S.finished = z3.Store(S.finished, h, True)
+        S.checked = z3.Store(S.checked, fut.t, True)  # ghost: this future was asked for its exception
         # guarantee of ExecNode.execute (contracts/values.py: execute.post.result_written) carried by the future:
         # a normal return of result() means execute returned normally, hence results[h] is written
         C.assume(S.results.dom[h])
@@ -351,6 +360,7 @@ class WaitForFinishedNodes:
 
         def ghost_havoc(self, env, st):
             S = C.ghost["S"]
+            S.checked = C.fresh("checked", sym.SetSort(Fut))
             S.finished = C.fresh("finished", sym.SetSort(Id))
 
         def inv(self, env, st):
@@ -368,8 +378,10 @@ class WaitForFinishedNodes:
             cl = [
                 ("graph_minus_seen", z3.ForAll([x], S.graph.N[x] == z3.And(o["G0"][x], z3.Not(seenI(x)))), {"C02", "C03", "C09"}),
                 ("graph_card", S.graph.cN == o["cG0"] - st.nseen, {"C09"}),
-                ("finished_plus_seen", z3.ForAll([x], S.finished[x] == z3.Or(o["fin0"][x], seenI(x))), {"C03", "C14"}),
-            ] + S.inv_mid()
+                ("finished_plus_seen", z3.ForAll([x], S.finished[x] == z3.Or(o["fin0"][x], seenI(x))), {"C03"}),
+                ("C14.no_failure_swallowed", z3.ForAll([f_], z3.Implies(st.seen[f_], S.checked[f_])), {"C14"}),
+                ("results_of_removed_nodes_present", z3.ForAll([x], z3.Implies(seenI(x), S.results.dom[x])), {"C02", "C01"}),
+            ] + [c for c in S.inv_mid() if not c[0].startswith("I9a")]
             S.running[kind] = saved
             return cl
 
@@ -415,7 +427,16 @@ class WaitForFinishedNodes:
         S = make_symbolic_state()
         hooks = SchedHooks(S)
         C.ghost.update(S=S, hooks=hooks, wait={})
-        S.graph.remove_root_node = lambda r: RemoveRootNode.stub(S.graph, r)
+        def remove_done(r):
+            # ghost: an in-flight node observed done leaves the graph -> it is finished; its future must have been
+            # asked for its exception first (otherwise a failure would be swallowed)
+            h = r.t
+            fu = S.futures[kind].fwd.val[h]
+            C.check(S.checked[fu], f"{self.qualname}.remove.C14.future_was_asked_for_its_exception", {"C14"}, "assert")
+            S.finished = z3.Store(S.finished, h, True)
+            return RemoveRootNode.stub(S.graph, r)
+
+        S.graph.remove_root_node = remove_done
         C.assume([g for _, g, _ in S.inv_mid()])
         done = SSet.fresh("done", Fut)
         running, runnable, graph, futures = S.running[kind], S.runnable, S.graph, S.futures[kind]
@@ -459,7 +480,8 @@ class WaitForFinishedNodes:
         C.check(r2.c == R2.c, f"{pre}.running_card", {"C04", "C09"}, "post")
         C.check(z3.ForAll([x], graph.N[x] == z3.And(snap["G0"][x], z3.Not(dn(x)))), f"{pre}.graph_minus_done", {"C02", "C03", "C09"}, "post")
         C.check(graph.cN == snap["cG0"] - D.c, f"{pre}.graph_card", {"C09"}, "post")
-        C.check(z3.ForAll([x], S.finished[x] == z3.Or(snap["fin0"][x], dn(x))), f"{pre}.finished_plus_done", {"C03", "C14"}, "post")
+        C.check(z3.ForAll([x], S.finished[x] == z3.Or(snap["fin0"][x], dn(x))), f"{pre}.finished_plus_done", {"C03"}, "post")
+        C.check(z3.ForAll([f_], z3.Implies(D.mem(f_), S.checked[f_])), f"{pre}.C14.every_done_future_was_asked_for_its_exception", {"C14"}, "post")
         C.check(z3.And(S.started == snap["started"], S.skipped == snap["skipped"], S.pend == snap["pend"], S.cPend == snap["cPend"]), f"{pre}.ghost_frame", {"C03"}, "post")
         C.check(z3.ForAll([x], z3.Implies(z3.Not(old_infl(x)), z3.And(S.results.dom[x] == snap["rd"][x], S.results.val[x] == snap["rv"][x]))), f"{pre}.results_stable_part_untouched", {"C15", "C02"}, "post")
         for name, goal, serves in S.inv_mid():
@@ -507,28 +529,29 @@ from contracts.digraph_sched import SDiGraphEx  # noqa: E402
 
 
 class SResults(SMap):
-    """the per-execution results map; a `None` written by the scheduler is the deactivation of a node (ghost effect)"""
-
-    def __setitem__(self, k, v):
-        super().__setitem__(k, v)
-        if v is None:
-            C.ghost["hooks"].on_deactivation(term(k))
+    """the per-execution results map"""
 
     def clone(self):
         m = SResults(self.ks, self.vs, self.dom, self.val, self.strict, self.default, self.on_missing, self.name, self.cdom)
         return m
 
 
-def _on_deactivation(self, h):
+def _on_remove_root(self, h):
+    """ghost effect of `graph.remove_root_node(h)` called by the scheduler itself: a node that leaves the graph
+    without having been started is *deactivated* (skipped)"""
     S = self.S
-    C.check(z3.Not(ACTIVE(S.results_before_write[0], S.results_before_write[1], h)), "async_execute.deactivate.C10.inactive", {"C10", "C03"}, "assert")
-    C.check(z3.And(S.Sel[h], S.graph.N[h], z3.Not(S.started[h])), "async_execute.deactivate.C03.selected_unstarted", {"C03", "C10"}, "assert")
-    S.skipped = z3.Store(S.skipped, h, True)
+    unstarted = z3.Not(S.started[h])
+    rd, rv = S.results_before_write
+    C.check(z3.Implies(unstarted, z3.Not(ACTIVE(rd, rv, h))), "async_execute.skip.C10.only_inactive_nodes_leave_the_graph_unexecuted", {"C10", "C03"}, "assert")
+    C.check(z3.Implies(unstarted, z3.And(S.Sel[h], S.graph.N[h])), "async_execute.skip.C03.skipped_node_is_selected", {"C03", "C10"}, "assert")
+    C.check(z3.Implies(S.started[h], S.finished[h]), "async_execute.remove.C02.started_node_leaves_the_graph_only_when_finished", {"C02", "C03"}, "assert")
+    C.check(z3.Implies(unstarted, z3.Or(z3.Not(S.results.dom[h]), S.results.val[h] == none)), "async_execute.skip.C10.deactivated_node_reads_as_None", {"C10"}, "assert")
+    S.skipped = z3.Store(S.skipped, h, z3.Or(S.skipped[h], unstarted))
+    S.cPend = S.cPend - z3.If(S.pend[h], 1, 0)
     S.pend = z3.Store(S.pend, h, False)
-    S.cPend = S.cPend - 1
 
 
-SchedHooks.on_deactivation = _on_deactivation
+SchedHooks.on_remove_root = _on_remove_root
 
 
 class SExecutor(sym.Sym):
@@ -610,6 +633,7 @@ class AsyncExecute:
             S = C.ghost["S"]
             S.havoc_ghost()
             S.async_wait_blocked = False
+            S.results_before_write = (S.results.dom, S.results.val)
             C.assume(S.lemma_L1())
 
         def inv(self, env, st):
@@ -671,6 +695,7 @@ class AsyncExecute:
         S = Sched()
         graph = SDiGraphEx(name="graph")
         S.graph, S.G0 = graph, graph.N
+        graph.remove_root_node = lambda r: (C.ghost["hooks"].on_remove_root(r.t), RemoveRootNode.stub(graph, r))[1]
         results0 = SResults(Id, Val, C.fresh("dom0", sym.SetSort(Id)), C.fresh("val0", z3.ArraySort(Id, Val)), strict=True, name="results")
         S.dom0, S.val0 = results0.dom, results0.val
         S.results_before_write = (results0.dom, results0.val)
@@ -702,9 +727,10 @@ class AsyncExecute:
         C.check(S.n_inflight() == 0, f"{p}.C09.nothing_in_flight", {"C09", "C17"}, "post")
         if res2 is not S.results:
             raise ContractBindError("async_execute returns another results map than the one it filled")
-        C.check(z3.ForAll([x], S.results.dom[x] == z3.Or(S.dom0[x], S.Sel[x])), f"{p}.results_domain_is_given_plus_selected", {"C03", "C12", "C11", "C18"}, "post")
+        C.check(z3.ForAll([x], z3.Implies(S.results.dom[x], z3.Or(S.dom0[x], S.Sel[x]))), f"{p}.results_only_for_given_or_selected", {"C03", "C12", "C11"}, "post")
+        C.check(z3.ForAll([x], z3.Implies(z3.Or(S.dom0[x], S.finished[x]), S.results.dom[x])), f"{p}.results_of_given_and_executed_present", {"C01", "C02", "C18", "C11"}, "post")
         C.check(z3.ForAll([x], z3.Implies(S.dom0[x], S.results.val[x] == S.val0[x])), f"{p}.given_results_unchanged", {"C01", "C11", "C15", "C18"}, "post")
-        C.check(z3.ForAll([x], z3.Implies(S.skipped[x], S.results.val[x] == none)), f"{p}.C10.deactivated_yield_None", {"C10"}, "post")
+        C.check(z3.ForAll([x], z3.Implies(z3.And(S.skipped[x], S.results.dom[x]), S.results.val[x] == none)), f"{p}.C10.deactivated_yield_None", {"C10"}, "post")
         if S.executor is None or not S.executor.exited:
             C.check(z3.BoolVal(False), f"{p}.C17.pool_closed", {"C17"}, "post")
         if not isinstance(xn2, SXnMap) or xn2 is xns0:
